@@ -39,8 +39,8 @@ func runC14(c *rules.Ctx) {
 	c.Returns(AG, 0, "0 | sub(tickIndex, mul(quo(tickIndex, @clmath.geometricExponentIncrementDistanceInTicks), @clmath.geometricExponentIncrementDistanceInTicks))", "additive ticks = remainder within the decade", "/add")
 	const PT = M + "CalculatePriceToTick"
 	c.FailsWhen(PT, "osmomath.BigDec.IsNegative(price)", "negative prices are rejected", rules.GuardOpt{})
-	c.FailsWhen(PT, "gt(price, @cltypes.MaxSpotPriceBigDec)", "prices above the maximum are rejected", rules.GuardOpt{})
-	c.FailsWhen(PT, "lt(price, @cltypes.MinSpotPriceV2)", "prices below the extended minimum are rejected", rules.GuardOpt{})
+	c.FailsWhen(PT, "gt(price, @cltypes.MaxSpotPriceBigDec)", "prices above the maximum are rejected — judged on the price as given, before the 18-digit chop", rules.GuardOpt{Before: "osmomath.BigDec.ChopPrecisionMut"})
+	c.FailsWhen(PT, "lt(price, @cltypes.MinSpotPriceV2)", "prices below the extended minimum are rejected — judged on the price as given, before the 18-digit chop", rules.GuardOpt{Before: "osmomath.BigDec.ChopPrecisionMut"})
 	c.OnlyWhen(PT, "osmomath.BigDec.ChopPrecisionMut", "ge(price, @cltypes.MinSpotPriceBigDec)", "prices in the 18-digit regime are chopped to 18 digits, others keep 36")
 	c.CallArg(PT, "osmomath.BigDec.ChopPrecisionMut", 1, "18", "to exactly 18 digits")
 	const ST = M + "CalculateSqrtPriceToTick"
